@@ -251,6 +251,104 @@ impl<T: Send> MpmcShared<T> {
       .retain(|w| w.state != state_ptr);
   }
 
+  /// A receiver that was notified (`STATE_SUCCESS_SPACE`: an item was queued for
+  /// it and it was unlinked from the wait list) but gives up without receiving -
+  /// its future was dropped - hands the notification to the next waiting
+  /// receiver. Without this the item stays queued while every other receiver
+  /// keeps sleeping.
+  pub(crate) fn forward_recv_wake(&self) {
+    let mut guard = self.internal.lock();
+    if guard.len() == 0 {
+      return;
+    }
+    let mut i = 0;
+    while i < guard.waiting_async_receivers.len() {
+      let waiter_state = unsafe { &*guard.waiting_async_receivers[i].state };
+      if waiter_state
+        .compare_exchange(
+          STATE_WAITING,
+          STATE_SUCCESS_SPACE,
+          Ordering::SeqCst,
+          Ordering::SeqCst,
+        )
+        .is_ok()
+      {
+        let waiter = guard.waiting_async_receivers.remove(i).unwrap();
+        drop(guard);
+        waiter.waker.wake();
+        return;
+      }
+      i += 1;
+    }
+    let mut i = 0;
+    while i < guard.waiting_sync_receivers.len() {
+      let waiter_state = unsafe { &*guard.waiting_sync_receivers[i].state };
+      if waiter_state
+        .compare_exchange(
+          STATE_WAITING,
+          STATE_SUCCESS_SPACE,
+          Ordering::SeqCst,
+          Ordering::SeqCst,
+        )
+        .is_ok()
+      {
+        let waiter = guard.waiting_sync_receivers.remove(i).unwrap();
+        drop(guard);
+        waiter.thread.unpark();
+        return;
+      }
+      i += 1;
+    }
+  }
+
+  /// Sender-side mirror of [`forward_recv_wake`](Self::forward_recv_wake): a
+  /// sender notified of free space that gives up without sending passes the
+  /// notification to the next waiting sender.
+  pub(crate) fn forward_send_wake(&self) {
+    let mut guard = self.internal.lock();
+    if self.capacity == 0 || guard.len() >= self.capacity {
+      return;
+    }
+    let mut i = 0;
+    while i < guard.waiting_async_senders.len() {
+      let waiter_state = unsafe { &*guard.waiting_async_senders[i].state };
+      if waiter_state
+        .compare_exchange(
+          STATE_WAITING,
+          STATE_SUCCESS_SPACE,
+          Ordering::SeqCst,
+          Ordering::SeqCst,
+        )
+        .is_ok()
+      {
+        let waiter = guard.waiting_async_senders.remove(i).unwrap();
+        drop(guard);
+        waiter.waker.wake();
+        return;
+      }
+      i += 1;
+    }
+    let mut i = 0;
+    while i < guard.waiting_sync_senders.len() {
+      let waiter_state = unsafe { &*guard.waiting_sync_senders[i].state };
+      if waiter_state
+        .compare_exchange(
+          STATE_WAITING,
+          STATE_SUCCESS_SPACE,
+          Ordering::SeqCst,
+          Ordering::SeqCst,
+        )
+        .is_ok()
+      {
+        let waiter = guard.waiting_sync_senders.remove(i).unwrap();
+        drop(guard);
+        waiter.thread.unpark();
+        return;
+      }
+      i += 1;
+    }
+  }
+
   pub(crate) fn try_recv_core(&self) -> Result<T, TryRecvError> {
     let mut guard = self.internal.lock();
 
